@@ -23,6 +23,7 @@ type LoopContract struct {
 	Invariants []Clause
 	Decreases  *Clause
 	Uses       []Clause
+	Steps      []Clause // `loop N step <cond>`: must hold at the end of every iteration (before the post statement)
 	Returns    []Clause // `loop N returns <cond>`: must hold at every return statement lexically inside the loop
 }
 
@@ -421,6 +422,8 @@ func (cs *ContractSet) loadFile(path string) error {
 				lc.Uses = append(lc.Uses, cl)
 			case "returns":
 				lc.Returns = append(lc.Returns, cl)
+			case "step":
+				lc.Steps = append(lc.Steps, cl)
 			default:
 				return fmt.Errorf("%s:%d: bad loop directive %q", path, l.no, f[1])
 			}
